@@ -336,4 +336,4 @@ def run(ctx):
                 ctx.sample("reader", {"reader": text, "skip_lines": skip})
         probe.report(ctx)
         reach.report(ctx)
-    ctx.require("hook:FldExporter.to_string_from_scope", "hook:FldExporter.to_string_from_reader", "hook:Operation.increment", "scope:AllVariables", "scope:EachVariable", "scope:reader", "compare:outputs of a row", "piece:perfect power", "piece:between powers", "inputs:1", "inputs:2", "inputs:3", "inputs:4")
+    ctx.require("hook:FldExporter.to_string_from_scope", "hook:FldExporter.to_string_from_reader", "scope:AllVariables", "scope:EachVariable", "scope:reader", "compare:outputs of a row", "piece:perfect power", "piece:between powers", "inputs:1", "inputs:2", "inputs:3", "inputs:4")
